@@ -157,7 +157,11 @@ def run_case(ctx, nix, np, path, rng, recipe, rep):
             pass
 
         def verify(tag):
-            d = state["f"].blocks[0].data_arrays[0]
+            # read through a handle fetched just now, or through a long-lived reading handle of this session
+            # (which has read the array before the last writes)
+            if state.get("reader_of") is not state["f"]:
+                state["reader"], state["reader_of"] = state["f"].blocks[0].data_arrays[0], state["f"]
+            d = state["f"].blocks[0].data_arrays[0] if rng.random() < 0.5 else state["reader"]
             ctx.count("verifications")
 
             def bad(path_, why, **kw):
